@@ -247,6 +247,11 @@ func returnsOf(f *ssa.Function) []*ssa.Return {
 	var out []*ssa.Return
 	instrs(f, func(in ssa.Instruction) {
 		if r, ok := in.(*ssa.Return); ok {
+			// the recover block of a function with defer is entered only after a recovered
+			// panic; none of the analysed functions recovers
+			if f.Recover != nil && r.Block() == f.Recover {
+				return
+			}
 			out = append(out, r)
 		}
 	})
